@@ -1,6 +1,7 @@
 pub mod c14;
 pub mod c15;
 pub mod c17;
+pub mod c18;
 pub mod c19;
 
 use crate::driver::PropDef;
@@ -10,6 +11,7 @@ pub fn lookup(id: &str) -> Option<&'static PropDef> {
         "C14" => Some(&c14::DEF),
         "C15" => Some(&c15::DEF),
         "C17" => Some(&c17::DEF),
+        "C18" => Some(&c18::DEF),
         "C19" => Some(&c19::DEF),
         _ => None,
     }
